@@ -365,6 +365,26 @@ func init() {
 			c.do(fmt.Sprintf("conv.pair srt %s %d 0 %s %s", dst, r.intn(12), op, encBytes(b.Bytes())))
 			c.count("cli-interaction")
 		}
+		// inheritance chains of styles (and a region hanging on one) through optimize, then every destination
+		for depth := 2; depth <= 5; depth++ {
+			var b bytes.Buffer
+			b.WriteString(`<tt xmlns="http://www.w3.org/ns/ttml" xmlns:tts="http://www.w3.org/ns/ttml#styling"><head><styling>`)
+			for i := 0; i < depth; i++ {
+				parent := ""
+				if i > 0 {
+					parent = fmt.Sprintf(` style="c%d"`, i-1)
+				}
+				fmt.Fprintf(&b, `<style xml:id="c%d"%s tts:color="#0000%02x"/>`, i, parent, i)
+			}
+			b.WriteString(`<style xml:id="unused" tts:color="red"/></styling><layout>`)
+			fmt.Fprintf(&b, `<region xml:id="r" style="c%d"/></layout></head><body><div>`, depth-1)
+			fmt.Fprintf(&b, `<p begin="00:00:01.000" end="00:00:02.000" style="c%d"><span>chain</span></p>`, depth-1)
+			b.WriteString(`<p begin="00:00:03.000" end="00:00:04.000" region="r"><span>region</span></p></div></body></tt>`)
+			for _, dst := range convDst {
+				c.do(fmt.Sprintf("conv.pair ttml %s %d 0 opt %s", dst, r.intn(12), encBytes(b.Bytes())))
+				c.count("style-chains")
+			}
+		}
 	}}
 
 	// ops.cli <frag|unfrag|add> <param ns> <items>: one operation through the command-line tool on a SubRip file
